@@ -9,7 +9,7 @@ BOUNDS = ('Images 1..4 x 1..3 (all residues of width mod 4), alpha on/off, all p
           'BMP: save->decode->load, every prefix length symbolic; input variants 24/32-bit BI_RGB, BI_BITFIELDS with all 24 byte-mask permutations, top-down/bottom-up, '
           'info header 40/108/124 bytes, pixel-data gap 0/2. BMP header arithmetic: width symbolic in [1,32768], height cells. '
           'PPM: P6 load for 8/16/32/64-bit samples with every prefix inside the samples symbolic and every prefix inside the header as concrete cells; P5 gray load 8/16/32/64-bit; '
-          'P6 save bytes == canonical file. PNG: framing for 1..3 x 1..3. Raw constructor: every file length.')
+          'P6/P7 save bytes == canonical file (exact Netpbm header text + raw samples). PNG: framing for 1..3 x 1..3. Raw constructor: every file length.')
 STUBS = ['stdio over a harness byte array (props/C06/c06.h): fread fwrite fgetc fgets feof fileno fseek __isoc99_fscanf("%zu"/"%lu") snprintf(literals,%zu,%lu) - libc contracts, exact decimal conversion; '
          'fread deviation: on a short read the unread tail of the caller buffer receives stale bytes (never read: freadx throws)',
          'strtoull (base 10, exact) for std::stoull',
@@ -18,7 +18,6 @@ STUBS = ['stdio over a harness byte array (props/C06/c06.h): fread fwrite fgetc 
          'engine/shim unordered_map (BI_BITFIELDS mask table, 4 entries) and deque',
          'exception objects come from a static pool (VERIF_EXC_POOL) so that cbmc --memory-leak-check sees only program allocations']
 OUTSIDE = ['P7 (PAM) *input*: the text header goes through phosg::fgets + std::string substr/stoull per line; no verdict at the smallest cell (1x1, 517k symex steps, >8 GB) - P7 RGB_ALPHA and GRAYSCALE_ALPHA decode are therefore not decided by the solver (the gray+alpha source index is repaired by the same patch as P5, see NOTES.md)',
-           'P7 output header text (snprintf through a variadic prototype is not constant-propagated by CBMC; the 67-character format did not finish)',
            'that the deflate stream inflates to the scan lines and that zlib crc32 is the PNG CRC (zlib is not encoded); independent-decoder agreement for PNG beyond framing',
            'dimensions above 4x3; 16-bit and wider samples are compared in host byte order (phosg writes and reads them raw; Netpbm defines big-endian) - see NOTES.md',
            'malformed (not merely truncated) headers, e.g. BMP info-header size < 4 (observation in NOTES.md)']
@@ -61,9 +60,9 @@ def queries(tier):
             defs['TLEN'] = tlen
         # snprintf_core loops: .0/.1 digit loops, .2 the format-string loop
         return dict(name='ppm_%s_%dx%da%d_cw%d%s' % (('colour_save', 'gray_decode', 'colour_load')[mode], W, H, A, CW, '' if tlen is None else '_cut%d' % tlen), unit='img', harness='h_ppm.c', defs=defs,
-                    unwind=max(W, H, 8) + 2, unwindset='in_bytes.0:%d,w_set_data.0:%d,verif_memset_loop.0:%d,X_fread.0:%d,X_fwrite.0:%d,verif_memcpy_loop.0:%d,harness.0:%d,harness.1:%d,harness.2:%d,harness.3:100,put_str.0:40,put_dec.0:22,put_dec.1:22,fscanf_core.0:6,fscanf_core.1:22,snprintf_core.0:80,snprintf_core.1:22,snprintf_core.2:22,strlen.0:100' % (n, n, n, n, 100, n, 100, 100, 100),
+                    unwind=max(W, H, 8) + 2, unwindset='in_bytes.0:%d,w_set_data.0:%d,verif_memset_loop.0:%d,X_fread.0:%d,X_fwrite.0:%d,verif_memcpy_loop.0:%d,harness.0:%d,harness.1:%d,harness.2:%d,harness.3:100,put_str.0:40,put_dec.0:22,put_dec.1:22,fscanf_core.0:6,fscanf_core.1:22,snprintf_core.0:24,snprintf_core.1:24,snprintf_core.2:%d,strlen.0:100' % (n, n, n, n, 100, n, 100, 100, 100, 72 if A else 22),
                     timeout=900, mem_gb=8, object_bits=12, flags=FLAGS,
-                    desc='%s, %dx%d, alpha=%d, %d-bit samples%s' % (('colour PPM save: file == canonical Netpbm header + raw samples', 'grayscale PPM input: (g,g,g) expansion, memory safety', 'colour PPM load of the canonical file: identity')[mode], W, H, A, CW,
+                    desc='%s, %dx%d, alpha=%d, %d-bit samples%s' % (('colour PPM (P6) / PAM (P7 when alpha) save: file == canonical Netpbm header + raw samples', 'grayscale PPM input: (g,g,g) expansion, memory safety', 'colour PPM load of the canonical file: identity')[mode], W, H, A, CW,
                                                                      '' if mode == 0 else (', every prefix that ends inside the samples (symbolic): exception or identical' if tlen is None else ', prefix of %d bytes (inside the header): exception' % tlen)),
                     bounds='image %dx%d, all sample bytes' % (W, H))
 
@@ -89,7 +88,7 @@ def queries(tier):
     if not T:
         qs += [bmp(1, 2, 0), bmp(2, 2, 0), bmp(3, 2, 0), bmp(4, 2, 0), bmp(2, 2, 1), bmp(3, 1, 1), bmp(2, 2, 0, 0), bmp(2, 2, 0, 17), bmp(2, 2, 0, 53), bmp(2, 2, 1, 100)]
         qs += [bmpvar(2, 2, 24, 0, 0, 40), bmpvar(3, 2, 24, 0, 1, 40), bmpvar(2, 2, 32, 0, 0, 40), bmpvar(2, 2, 32, 3, 0, 124, 2), bmpvar(1, 2, 32, 3, 1, 108)]
-        qs += [ppm(2, 2, 2, 0, 8), ppm(2, 2, 2, 0, 8, 5), ppm(2, 1, 2, 0, 16), ppm(2, 2, 1, 0, 64), ppm(2, 2, 1, 0, 64, 27), ppm(1, 2, 2, 0, 8), ppm(1, 1, 2, 0, 16)]
+        qs += [ppm(0, 2, 2, 0, 8), ppm(0, 1, 1, 1, 8), ppm(2, 2, 2, 0, 8), ppm(2, 2, 2, 0, 8, 5), ppm(2, 1, 2, 0, 16), ppm(2, 2, 1, 0, 64), ppm(2, 2, 1, 0, 64, 27), ppm(1, 2, 2, 0, 8), ppm(1, 1, 2, 0, 16)]
         qs += [png(2, 2, 0), png(1, 2, 1), raw(2, 2, 0)]
     else:
         for W in (1, 2, 3, 4):
@@ -115,7 +114,7 @@ def queries(tier):
             qs.append(ppm(2, 2, 1, 0, 64, cut))
         for cut in (0, 1, 2, 3, 5, 7, 9, 10):
             qs.append(ppm(1, 2, 2, 0, 8, cut))
-        qs += [ppm(0, 2, 2, 0, 8), ppm(0, 1, 1, 0, 16), ppm(0, 1, 1, 0, 64)]
+        qs += [ppm(0, 2, 2, 0, 8), ppm(0, 1, 1, 0, 16), ppm(0, 1, 1, 0, 64), ppm(0, 1, 1, 1, 8), ppm(0, 2, 1, 1, 16)]
         for W in (1, 2, 3):
             for H in (1, 2, 3):
                 for A in (0, 1):
